@@ -390,7 +390,7 @@ Definition check_case (x : ccase) : bool :=
       let rh := snd (obucket_run c None t_hi) in
       if list_eqb Bool.eqb rl rh then list_eqb Bool.eqb rl obs
       else (* ambiguous: only the count bracket *)
-        (ntrue rl <=? ntrue obs) && (ntrue obs <=? ntrue rh)
+        (N.min (ntrue rl) (ntrue rh) <=? ntrue obs) && (ntrue obs <=? N.max (ntrue rl) (ntrue rh))
   end.
 
 (* theorem conclusions evaluated on the implementation's own outputs *)
